@@ -4,135 +4,4 @@
 #include <libast.h>
 #include "objs.inc"
 
-static int is_list(int c) { return c >= 7 && c <= 9; }
-static int is_vector(int c) { return c >= 10 && c <= 12; }
-static int is_map(int c) { return c >= 13 && c <= 15; }
-
-/* take one element out of container `a` (it now belongs to the caller) and either delete it (b < 0) or
- * hand it to list `b` (append).  Returns 0 nothing removed, 1 removed+deleted, 2 removed+transferred. */
-int c06_move(int a, int idx, const char *w, int b)
-{
-    spif_obj_t o = OB[a], e = NULL, probe;
-    if (!o) return 0;
-    if (is_list(OBC[a])) e = SPIF_LIST_REMOVE_AT(SPIF_LIST(o), (spif_listidx_t) idx);
-    else if (is_vector(OBC[a])) { probe = ob_word(w); e = SPIF_VECTOR_REMOVE(SPIF_VECTOR(o), probe); SPIF_OBJ_DEL(probe); }
-    else if (is_map(OBC[a])) { probe = ob_word(w); e = SPIF_MAP_REMOVE(SPIF_MAP(o), probe); SPIF_OBJ_DEL(probe); }
-    else if (OBC[a] == 4 && SPIF_TOK(o)->tokens) e = SPIF_LIST_REMOVE_AT(SPIF_TOK(o)->tokens, (spif_listidx_t) idx);
-    if (SPIF_OBJ_ISNULL(e)) return 0;
-    if (b >= 0 && OB[b] && is_list(OBC[b]) && b != a) { SPIF_LIST_APPEND(SPIF_LIST(OB[b]), e); return 2; }
-    SPIF_OBJ_DEL(e);
-    return 1;
-}
-/* substr / subbuff of slot a into slot dst (caller owns the result) */
-int c06_sub(int a, int idx, int cnt, int dst)
-{
-    spif_obj_t o = OB[a], r = NULL;
-    if (!o) return 0;
-    if (OBC[a] == 0 || OBC[a] == 5 || OBC[a] == 6) r = SPIF_OBJ(spif_str_substr(SPIF_STR(o), idx, cnt));
-    else if (OBC[a] == 1) r = SPIF_OBJ(spif_ustr_substr(SPIF_USTR(o), idx, cnt));
-    else if (OBC[a] == 2) r = SPIF_OBJ(spif_mbuff_subbuff(SPIF_MBUFF(o), idx, cnt));
-    else return 0;
-    if (SPIF_OBJ_ISNULL(r)) return 0;
-    OB[dst] = r;
-    OBC[dst] = (OBC[a] == 5 || OBC[a] == 6) ? 0 : OBC[a];
-    return 1;
-}
-/* substr_to_ptr / subbuff_to_ptr: the caller frees the plain block */
-int c06_sub_ptr(int a, int idx, int cnt)
-{
-    spif_obj_t o = OB[a];
-    void *p = NULL;
-    if (!o) return 0;
-    if (OBC[a] == 0) p = spif_str_substr_to_ptr(SPIF_STR(o), idx, cnt);
-    else if (OBC[a] == 1) p = spif_ustr_substr_to_ptr(SPIF_USTR(o), idx, cnt);
-    else if (OBC[a] == 2) p = spif_mbuff_subbuff_to_ptr(SPIF_MBUFF(o), idx, cnt);
-    else return 0;
-    if (!p) return 0;
-    free(p);
-    return 1;
-}
-/* to_array: the array block belongs to the caller, the elements stay with the container */
-int c06_to_array(int a)
-{
-    spif_obj_t o = OB[a], *arr = NULL;
-    if (!o) return 0;
-    if (is_list(OBC[a])) arr = SPIF_LIST_TO_ARRAY(SPIF_LIST(o));
-    else if (is_vector(OBC[a])) arr = SPIF_VECTOR_TO_ARRAY(SPIF_VECTOR(o));
-    else return 0;
-    free(arr);
-    return 1;
-}
-/* get_keys / get_values / get_pairs: into a new list (stored in dst) or appended to the existing list dst */
-int c06_getlist(int a, int what, int dst, int fresh_kind)
-{
-    spif_obj_t o = OB[a];
-    spif_list_t target = NULL, res;
-    if (!o || !is_map(OBC[a])) return 0;
-    if (OB[dst] && is_list(OBC[dst])) target = SPIF_LIST(OB[dst]);
-    else if (OB[dst]) return 0;
-    else if (fresh_kind) target = (fresh_kind == 1) ? SPIF_LIST_NEW(array) : (fresh_kind == 2) ? SPIF_LIST_NEW(linked_list) : SPIF_LIST_NEW(dlinked_list);
-    res = what == 0 ? SPIF_MAP_GET_KEYS(SPIF_MAP(o), target) : what == 1 ? SPIF_MAP_GET_VALUES(SPIF_MAP(o), target) : SPIF_MAP_GET_PAIRS(SPIF_MAP(o), target);
-    if (SPIF_LIST_ISNULL(res)) { if (target && !OB[dst]) SPIF_LIST_DEL(target); return 0; }
-    if (!OB[dst]) { OB[dst] = SPIF_OBJ(res); OBC[dst] = ob_cls_of_obj(SPIF_OBJ(res)); }
-    return 1;
-}
-/* iterator: create, take k steps, delete the iterator (elements stay owned by the container) */
-int c06_iter(int a, int k)
-{
-    spif_obj_t o = OB[a];
-    spif_iterator_t it = NULL;
-    if (!o) return 0;
-    if (is_list(OBC[a])) it = SPIF_LIST_ITERATOR(SPIF_LIST(o));
-    else if (is_vector(OBC[a])) it = SPIF_VECTOR_ITERATOR(SPIF_VECTOR(o));
-    else if (is_map(OBC[a])) it = SPIF_MAP_ITERATOR(SPIF_MAP(o));
-    else return 0;
-    if (SPIF_ITERATOR_ISNULL(it)) return 0;
-    while (k-- > 0 && SPIF_ITERATOR_HAS_NEXT(it)) (void) SPIF_ITERATOR_NEXT(it);
-    SPIF_OBJ_DEL(SPIF_OBJ(it));
-    return 1;
-}
-/* map overwrite: set an existing key again (the old value must be released by the map) */
-int c06_overwrite(int a, const char *w)
-{
-    spif_obj_t o = OB[a], k, v, first;
-    spif_iterator_t it;
-    int r;
-    if (!o || !is_map(OBC[a]) || SPIF_MAP_COUNT(SPIF_MAP(o)) == 0) return 0;
-    it = SPIF_MAP_ITERATOR(SPIF_MAP(o));
-    first = SPIF_ITERATOR_NEXT(it);
-    k = SPIF_OBJ_DUP(SPIF_OBJPAIR(first)->key);
-    SPIF_OBJ_DEL(SPIF_OBJ(it));
-    v = ob_word(w);
-    r = SPIF_MAP_SET(SPIF_MAP(o), k, v);
-    SPIF_OBJ_DEL(k);
-    SPIF_OBJ_DEL(v);
-    return r ? 1 : -1;   /* -1: the map claimed the key was new */
-}
-/* done() then init() through the class table: the object must be reusable and empty */
-int c06_reinit(int a)
-{
-    spif_obj_t o = OB[a];
-    if (!o) return 0;
-    if (!SPIF_OBJ_DONE(o)) return -1;
-    if (!SPIF_OBJ_INIT(o)) return -2;
-    return SPIF_OBJ_CLASS(o) == ob_class(OBC[a]) ? 1 : -3;
-}
-/* url setters replace (and must release) the previous component */
-int c06_url_set(int a, int which, const char *w)
-{
-    spif_obj_t o = OB[a];
-    spif_str_t s;
-    if (!o || OBC[a] != 5) return 0;
-    s = (spif_str_t) ob_word(w);
-    switch (which % 7) {
-    case 0: spif_url_set_proto(SPIF_URL(o), s); break;
-    case 1: spif_url_set_user(SPIF_URL(o), s); break;
-    case 2: spif_url_set_passwd(SPIF_URL(o), s); break;
-    case 3: spif_url_set_host(SPIF_URL(o), s); break;
-    case 4: spif_url_set_port(SPIF_URL(o), s); break;
-    case 5: spif_url_set_path(SPIF_URL(o), s); break;
-    default: spif_url_set_query(SPIF_URL(o), s); break;
-    }
-    return 1;
-}
-int c06_tok_eval(int a) { if (!OB[a] || OBC[a] != 4 || !SPIF_TOK(OB[a])->src) return 0; return spif_tok_eval(SPIF_TOK(OB[a])) ? 1 : -1; }
+#include "objs_own.inc"
